@@ -134,6 +134,9 @@ type blockCrypt struct {
 	decbuf    []byte // decryption working buffer
 	block     cipher.Block
 	blockSize int // cached block size
+
+	// used by Decrypt; a second instance when the cipher keeps scratch state
+	decBlock cipher.Block
 }
 
 //go:nosplit
@@ -146,7 +149,7 @@ func (c *blockCrypt) Encrypt(dst, src []byte) {
 //go:nosplit
 func (c *blockCrypt) Decrypt(dst, src []byte) {
 	c.decMu.Lock()
-	decrypt(c.block, dst, src, c.decbuf)
+	decrypt(c.decBlock, dst, src, c.decbuf)
 	c.decMu.Unlock()
 }
 
@@ -154,6 +157,7 @@ func newBlockCrypt(block cipher.Block) BlockCrypt {
 	blockSize := block.BlockSize()
 	return &blockCrypt{
 		block:     block,
+		decBlock:  block,
 		blockSize: blockSize,
 		encbuf:    make([]byte, blockSize),
 		decbuf:    make([]byte, 2*blockSize),
@@ -205,7 +209,15 @@ func NewSM4BlockCrypt(key []byte) (BlockCrypt, error) {
 	if err != nil {
 		return nil, err
 	}
-	return newBlockCrypt(block), nil
+	// sm4's cipher.Block keeps per-instance scratch buffers, so Encrypt and
+	// Decrypt (which take different mutexes) must not share one instance.
+	decBlock, err := sm4.NewCipher(key)
+	if err != nil {
+		return nil, err
+	}
+	c := newBlockCrypt(block).(*blockCrypt)
+	c.decBlock = decBlock
+	return c, nil
 }
 
 // NewTwofishBlockCrypt https://en.wikipedia.org/wiki/Twofish
